@@ -59,6 +59,7 @@ def run(ctx):
         _rewrap(ctx, cfg, prog, mod)
         _optpass(ctx, cfg, prog, mod)
         _buildtopo(ctx, cfg, prog, mod)
+        _periodgate(ctx, cfg, prog, mod)
         import idkeep
         ctx.rule('IDENT', 'wrapped vertices keep the UUID and data of the input vertex they replace')
         idkeep.check(ctx, cfg, prog, mod, 'IDENT',
@@ -68,6 +69,88 @@ def run(ctx):
 
 INSERT_TX = 'core::triangulation::Triangulation::insert_transactional'
 VNEW = 'core::vertex::Vertex::new_with_uuid'
+
+
+PERIODIC = 'core::builder::DelaunayTriangulationBuilder::build_periodic'
+# acceptance variables of the 2-D periodic quotient selection: (debug name, what a non-zero value means)
+PERIOD_VARS = {'best_boundary_count': 'boundary facets left in the selected quotient',
+               'best_abs_chi': '|Euler characteristic| of the selected quotient'}
+
+
+def _periodgate(ctx, cfg, prog, mod):
+    """PERIODGATE: "no boundary facets and Euler characteristic zero" are two independent acceptance tests of the 2-D
+    periodic mode.  For each acceptance variable, from every edge on which a comparison with the literal 0 found it
+    non-zero, no success exit of `build_periodic` is reachable (each test refuses on its own; `a > 0 && chi != 0` lets a
+    selection with boundary facets through whenever its chi happens to be 0)."""
+    ctx.rule('PERIODGATE', 'the periodic mode returns Ok only when the boundary count and |chi| of the selected quotient '
+                           'are each zero')
+    b = ctx.anchor(cfg, PERIODIC)
+    if b is None:
+        return
+    exits = {e['bb'] for e in gate.success_exit_blocks(b)}
+    byname = {v: k for k, v in b.names.items()}
+    for var, what in sorted(PERIOD_VARS.items()):
+        L = byname.get(var)
+        site = '%s:%d' % (b.file, b.line)
+        if L is None:
+            ctx.ob('ANCHOR', 'missing|%s|%s' % (PERIODIC, var), cfg, False,
+                   'acceptance variable `%s` (%s) not found in build_periodic (renamed or removed): fail closed' % (var, what))
+            continue
+        edges = set()
+        n = 0
+        for blk in b.blocks:
+            if blk.cleanup:
+                continue
+            for s_ in blk.stmts:
+                if s_.kind != 'A' or s_.rv.k != 'bin' or not s_.place.is_local() or len(s_.rv.ops) != 2:
+                    continue
+                op = s_.rv.raw.get('op')
+                a_, b_ = s_.rv.ops
+
+                def is_var(o):
+                    if o.place is None or not o.place.is_local():
+                        return False
+                    l = o.place.local
+                    for _ in range(3):
+                        if l == L:
+                            return True
+                        d = b.single_def(l)
+                        if d is None or d[1] == 'term' or d[2].rv.k != 'use' or not d[2].rv.ops or d[2].rv.ops[0].place is None:
+                            return False
+                        l = d[2].rv.ops[0].place.local
+                    return l == L
+                zero = lambda o: o.kind == 'k' and o.int_value() == 0
+                if is_var(a_) and zero(b_) and op in ('Gt', 'Ne', 'Eq', 'Le', 'Ge', 'Lt'):
+                    nonzero_when = {'Gt': True, 'Ne': True, 'Eq': False, 'Le': False}.get(op)
+                elif zero(a_) and is_var(b_) and op in ('Lt', 'Ne', 'Eq', 'Ge'):
+                    nonzero_when = {'Lt': True, 'Ne': True, 'Eq': False, 'Ge': False}.get(op)
+                else:
+                    continue
+                if nonzero_when is None:
+                    continue
+                # the switch on this bool
+                t = blk.term
+                if t.k == 'switch' and t.discr.place is not None and t.discr.place.is_local() and t.discr.place.local == s_.place.local:
+                    # only the final tests: a comparison inside the search loop (the variable is re-assigned afterwards)
+                    # decides whether to go on searching, not whether to accept
+                    later = flow.reach_edges(b, b.succs(blk.idx))
+                    if any(bb_ in later for (bb_, _, _) in b.defs.get(L, [])):
+                        continue
+                    n += 1
+                    listed = {v: tg for v, tg in t.values}
+                    tgt_true = t.otherwise if 0 in listed else listed.get(1, t.otherwise)
+                    tgt_false = listed.get(0, t.otherwise)
+                    edges.add((blk.idx, tgt_true if nonzero_when else tgt_false))
+        if not n:
+            ctx.ob('PERIODGATE', '%s|%s' % (PERIODIC, var), cfg, False,
+                   '`%s` (%s) is never compared with 0: the periodic mode has no acceptance test on it' % (var, what), site=site)
+            continue
+        reach = flow.reach_edges(b, [d for (_, d) in edges])
+        esc = sorted(exits & reach)
+        ctx.ob('PERIODGATE', '%s|%s' % (PERIODIC, var), cfg, not esc,
+               'from the non-zero side of the %d test(s) on `%s` no success exit is reachable' % (n, var) if not esc else
+               'a success exit (block %s) is reachable although `%s` (%s) was found non-zero: the test does not refuse on its own'
+               % (esc[:3], var, what), site=site)
 
 
 def _rewrap(ctx, cfg, prog, mod):
